@@ -48,7 +48,7 @@ LINKDATA = [("R39", buffer.r39_static), ("R17", buffer.r17_nearest), ("R17p", li
             ("R21", buffer.r21_evict), ("R04", buffer.r04_cmp)]
 SPILL = [("R22", spill.r22_pack), ("R23", spill2.r23s_finalize), ("R24", spill2.r24s_format), ("R25", spill2.r25s_pack)]
 TIMEAD = [("R26", buffer.r26_buffer), ("R27", buffer.r27_interp), ("R27c", buffer.r27c_constructors), ("R30", link.r30_delay)]
-INTEG = [("R28", integ.r28_dim), ("R29", integ.r29_integ), ("R27c", buffer.r27c_constructors)]
+INTEG = [("R28", integ.r28_dim), ("R29", integ.r29_integ), ("R29i", integ.r29i_initial_value), ("R27c", buffer.r27c_constructors)]
 GRID = [("R31", grid.r31_memo), ("R32", grid.r32_gridsib), ("R32b", grid.r32b_indexspace), ("R32c", grid.r32c_cellcenters),
         ("R32d", grid.r32d_cellcorners),
         ("R33", grid.r33_mirror), ("R34", grid.r34_transdir), ("R19", grid.r19_taxis), ("R15g", data.r15g_gridcompat)]
@@ -73,8 +73,8 @@ def _u(*groups):
 RULES = {
     "C01": _u(SCHED, LINKDATA, TIMEAD, ("R40c", link.r40c_shared_conduit), ("R06s", life.r06s_start_time), ("R14", connect.r14_doublepush), ("R16", data.r16_getinfo), ("R11i", connect.r11_initial_pull)),
     "C02": _u(SCHED, ("R30", link.r30_delay)),
-    "C03": _u(LIFE, SCHED, CONNECT, ("R42a", misc.r42a_fresh_copy)),
-    "C04": _u(SCHED, CONNECT, ("R30", link.r30_delay), ("R16", data.r16_getinfo)),
+    "C03": _u(LIFE, SCHED, CONNECT, ("R42a", misc.r42a_fresh_copy), ("R16", data.r16_getinfo), ("R30", link.r30_delay)),
+    "C04": _u(SCHED, CONNECT, ("R30", link.r30_delay), ("R16", data.r16_getinfo), ("R29i", integ.r29i_initial_value)),
     "C06": _u(CONNECT, LIFE, ("R17p", link.r17_pushpath), ("R15", data.r15_fields), ("R16", data.r16_getinfo)),
     "C07": _u(META, ("R11", connect.r11_r12_connect), ("R11r", connect.r11r_rules), ("R13", connect.r13_nodata),
               ("R34", grid.r34_transdir), ("R15g", data.r15g_gridcompat), ("R36", data.r36_units), ("R35", regrid2.r35x)),
@@ -90,16 +90,16 @@ RULES = {
     "C12": _u(INTEG, ("R20", link.r20_target), ("R26", buffer.r26_buffer), ("R22", spill.r22_pack), ("R21", buffer.r21_evict), ("R04", buffer.r04_cmp),
               ("R24", spill2.r24s_format), ("R25", spill2.r25s_pack)),
     "C13": _u(("R30", link.r30_delay), ("R27c", buffer.r27c_constructors), ("R02", sched.r02_sched_agree), ("R03", sched.r03_r09_step), ("R20", link.r20_target), ("R16", data.r16_getinfo)),
-    "C14": _u(("R31", grid.r31_memo), ("R32", grid.r32_gridsib), ("R32b", grid.r32b_indexspace), ("R32c", grid.r32c_cellcenters),
+    "C14": _u(("R31", grid.r31_memo), ("R31d", grid.r31d_c14), ("R32", grid.r32_gridsib), ("R32b", grid.r32b_indexspace), ("R32c", grid.r32c_cellcenters),
               ("R32d", grid.r32d_cellcorners),
               ("R33", grid.r33_mirror), ("R15g", data.r15g_gridcompat)),
-    "C15": _u(("R19", grid.r19_taxis), ("R33", grid.r33_mirror), ("R34", grid.r34_transdir), ("R15g", data.r15g_gridcompat),
+    "C15": _u(("R19", grid.r19_taxis), ("R31d", grid.r31d_c15), ("R15gl", data.r15gl_without_location), ("R33", grid.r33_mirror), ("R34", grid.r34_transdir), ("R15g", data.r15g_gridcompat),
               ("R32", grid.r32_gridsib), ("R18", link.r18_pullpath), ("R37e", data.r37e_masks_equal_layout), ("R39", buffer.r39_static),
               ("R20", link.r20_target), ("R15c", data.r15c_copy_with), ("R15", data.r15_fields)),
     "C16": _u(REGRID, ("R32c", grid.r32c_cellcenters), ("R32", grid.r32_gridsib), ("R32b", grid.r32b_indexspace), ("R32d", grid.r32d_cellcorners),
               ("R41", misc.r41_masktruth), ("R37", data.r37_masktable), ("R16", data.r16_getinfo), ("R31", grid.r31_memo)),
     "C17": _u(UNITS, ("R18", link.r18_pullpath), ("R15", data.r15_fields), ("R16u", data.r16u_delivered_units), ("R24", spill2.r24s_format),
-              ("R40", link.r40_cbtime), ("R39", buffer.r39_static), ("R17p", link.r17_pushpath), ("R28", integ.r28_dim), ("R42u", misc.r42u_quantity), ("R11r", connect.r11r_rules)),
+              ("R40", link.r40_cbtime), ("R39", buffer.r39_static), ("R17p", link.r17_pushpath), ("R28", integ.r28_dim), ("R42u", misc.r42u_quantity), ("R11r", connect.r11r_rules), ("R16", data.r16_getinfo)),
     "C18": _u(("R37", data.r37_masktable), ("R37e", data.r37e_masks_equal_layout), ("R37p", data.r37p_prepare_mask), ("R33c", data.r33c_compress), UNITS,
               ("R15", data.r15_fields), ("R15c", data.r15c_copy_with), ("R41", misc.r41_masktruth), ("R33", grid.r33_mirror), ("R34", grid.r34_transdir)),
     "C19": _u(VALID, ("R06", life.r06_life), ("R20", link.r20_target)),
